@@ -209,7 +209,12 @@ def record_r1(seed, count, nmax):
         pb = [int(rng.integers(0, 2))] * p
         table = {k: [float(x) for x in val] for k, val in S.items()}
         ignore = bool(rng.integers(0, 2))
-        det, outp, _ = run_mvcapa_case(table, n, p, m, mx, ca, cb, pa, pb, ignore=ignore)
+        try:
+            det, outp, _ = run_mvcapa_case(table, n, p, m, mx, ca, cb, pa, pb, ignore=ignore)
+        except Exception as e:  # a valid configuration on valid input must run
+            out.append({"id": f"r1-{seed}-{i}", "error": repr(e)[:200], "n": n, "p": p, "m": m, "mx": mx,
+                        "X": [[k, v] for k, v in sorted(table.items())], "pen": [ca, cb, pa, pb]})
+            continue
         rows = rows_of(outp)
         sc = det.scores.to_numpy()
         out.append({"id": f"r1-{seed}-{i}", "regime": "R1", "entry": "MVCAPA", "n": n, "p": p, "m": m,
